@@ -66,15 +66,15 @@ theorem disconnect_logout_eval (env : Env) (d : Nat) (text : String) (c : Conn)
     (h : isDisc c.state = false) (hd : isDisc d = true) :
     disconnect env d (some text) c =
       (match sendMsg env (logoutMsg text) (discReset c) with
-       | ⟨.error ex, c1, e1⟩ => ⟨.error ex, c1, e1⟩
+       | ⟨.error ex, c1, e1⟩ => ⟨.ok (), (discTail c1 d).1, e1 ++ [.caught ex] ++ (discTail c1 d).2⟩
        | ⟨.ok _, c1, e1⟩ => ⟨.ok (), (discTail c1 d).1, e1 ++ (discTail c1 d).2⟩) := by
   have h' : c.state > st_DISCONNECTED_BROKEN_CONN := by simpa [isDisc] using h
   have hd' : d ≤ st_DISCONNECTED_BROKEN_CONN := by simpa [isDisc] using hd
-  simp only [disconnect, bind, M.bind', h', hd', M.assert_apply, stateSet, discTail, M.get_apply,
-    M.modify_apply, M.emit_apply, if_true, decide_true, discReset]
+  simp only [disconnect, swallow, M.tryCatch_apply, bind, M.bind', h', hd', M.assert_apply, stateSet, discTail,
+    M.get_apply, M.modify_apply, M.emit_apply, if_true, decide_true, discReset]
   rcases sendMsg env (logoutMsg text) _ with ⟨r, c1, e1⟩
   cases r with
-  | error ex => rfl
+  | error ex => cases hs : c1.sock <;> simp [bind, M.bind', hs]
   | ok u => cases hs : c1.sock <;> simp [bind, M.bind', hs]
 
 /-! ### `on_disconnect` calls = reported transitions into a disconnected state -/
@@ -142,16 +142,17 @@ theorem disconnect_AB (env : Env) (d : Nat) (lo : Option String) : M.Rel RAB (di
         have hab := (RPlain.toAB (sendMsg_plain env (logoutMsg text))).out (discReset c)
         rcases hsend : sendMsg env (logoutMsg text) (discReset c) with ⟨r, c1, e1⟩
         rw [hsend] at hp hab
+        have hup : isDisc c1.state = false := by
+          have := plain_track_up hp.2 (s := (discReset c).state) h
+          rw [← hp.1] at this; exact this
         cases r with
-        | error ex => exact hab
+        | error ex =>
+          have hc : RAB c1 c1 [Effect.caught ex] := ⟨rfl, rfl, rfl⟩
+          have := Compositional.trans (c := c) (c1 := c1) (Compositional.trans (c := c) hab hc)
+            (discTail_AB c1 d hup hd)
+          simpa [List.append_assoc] using this
         | ok u =>
-          have hup : isDisc c1.state = false := by
-            have := plain_track_up hp.2 (s := (discReset c).state) h
-            rw [← hp.1] at this; exact this
           exact Compositional.trans (c := c) (c1 := c1) hab (discTail_AB c1 d hup hd)
-
-attribute [local irreducible] M.bind' M.pure' M.throw M.tryCatch M.get M.modify M.emit M.liftE
-  M.assert M.int
 
 theorem stateSet_AB {s : Nat} (h : isDisc s = false) : M.Rel RAB (stateSet s) :=
   RPlain.toAB (stateSet_plain h)
@@ -167,6 +168,8 @@ theorem processLogout_AB (env : Env) (m : Msg) : M.Rel RAB (processLogout env m)
 theorem processHeartbeat_AB (env : Env) (m : Msg) : M.Rel RAB (processHeartbeat env m) := by
   unfold processHeartbeat
   rel_tac [RAB.modify, RAB.emit, disconnect_AB]
+
+attribute [local irreducible] processLogon processLogout processHeartbeat checkSeqnumGaps processSeqreset
 
 theorem processHead_AB (env : Env) (m : Msg) : M.Rel RAB (processHead env m) := by
   unfold processHead
